@@ -258,6 +258,12 @@ var defectKinds = []string{
 	"overdraft-without-flag", "invalid-send-all-source",
 }
 
+// ApplyDefect is exported for the C20 engine, which needs every kind of
+// run-time failure to travel through the CLI.
+func ApplyDefect(r *rand.Rand, c *gen.PI, first bool) (Defect, bool) {
+	return applyDefect(r, c, first)
+}
+
 func applyDefect(r *rand.Rand, c *gen.PI, first bool) (Defect, bool) {
 	kind := defectKinds[r.IntN(len(defectKinds))]
 	d := Defect{Name: kind, Certain: true}
